@@ -1,7 +1,8 @@
 """C17 - residue / chain / molecule segmentation equals per-atom recomputation.
 
-E2: every annotation pattern of length 0..4 (thorough: 5) over a 24-letter atom
-alphabet (2 chain ids x 3 residue ids x 2 insertion codes x 2 residue names) is
+E2: every annotation pattern of length 0..4 (thorough: also 5 over two 12-letter
+sub-alphabets) over a 24-letter atom alphabet (2 chain ids x 3 residue ids x
+2 insertion codes x 2 residue names) is
 built as a real AtomArray (and as a depth-2 AtomArrayStack) and every residue /
 chain view is compared with a per-atom loop model.  Every labelled graph on
 <= 6 (thorough: 7) vertices goes through get_molecule_indices / masks /
@@ -19,11 +20,12 @@ ID = "C17"
 LEVEL = "model_checking"
 RULE = (
     "seg: every sequence of L atoms over the 24-letter alphabet chain{a,b} x res_id{base,higher,lower} x "
-    "ins_code{2} x res_name{2} (L = 0..4, thorough 0..5), values instantiated from the palette the seed selects; "
+    "ins_code{2} x res_name{2} (L = 0..4; thorough additionally L = 5 over the two 12-letter sub-alphabets with "
+    "res_name resp. ins_code fixed), values instantiated from the palette the seed selects; "
     "each pattern as AtomArray (and as depth-2 AtomArrayStack per the stated stride); all residue_* / chain_* "
     "views compared with a per-atom loop; index arrays: every array of length <= 2 over [-2, L+1] when L <= 3, "
-    "else identity and reversal (+ 4 refused arrays at level full, see bounds). A seg case is non-trivial when 1 < #residues < L or "
-    "1 < #chains < L (some but not all neighbouring atoms are separated). "
+    "else identity and reversal (+ 4 refused arrays at level full, see bounds). "
+    "A seg case is non-trivial when 1 < #residues < L or 1 < #chains < L (some but not all neighbouring atoms are separated). "
     "graph: every labelled simple graph on v vertices (all 2^(v(v-1)/2) edge sets), two bond-list encodings each; "
     "non-trivial when it has >= 1 bond and (>= 2 components or a cycle). "
     "ladder: fixed shapes x fixed sizes x 4 entry points, each in a forked child with an 8 MiB stack; "
@@ -81,7 +83,7 @@ def bounds(tier):
                         "inputs); L = 4: %s; L = 5: core" % ("core (identity + reversed index arrays, 2 "
                         "reducing functions, 1 spread input)" if q else "full apart from index arrays (identity, "
                         "reversed, 4 refused)"),
-        "seg_stack_views": "as for arrays, but index arrays are never enumerated (identity, reversed, 4 refused)",
+        "seg_stack_views": "as for arrays, but index arrays are never enumerated (identity, reversed, + 4 refused at level full)",
         "seg_stack_stride": "all for L <= 3, pattern index %% %d == 1 for L = 4%s" % (
             (8, "") if q else (4, ", index % 16 == 5 for L = 5")),
         "graph_max_vertices": 6 if q else 7,
@@ -882,7 +884,7 @@ def run_seg(shard, ctx):
             ctx.ev(1, 1 if nt else 0)
             if not as_stack:
                 ctx.outcome((tuple(rs), tuple(cs)))
-            if nt and len(ctx.samples) < 1 and idx % 97 == 11:
+            if nt and len(ctx.samples) < 1 and idx % 97 == 11 and digs[0] % 6 == 1:
                 ctx.sample({**case, "atoms": [list(r) for r in rows], "residue_starts": rs, "chain_starts": cs})
 
 
@@ -903,7 +905,7 @@ def run_graph(shard, ctx):
     # once per case; find that out in a child first
     canary_case = {"kind": "graph_canary"}
     if ctx.journal(canary_case):
-        r = ctx.isolated(_canary, ctx.tier, ctx.seed, timeout=120)
+        r = ctx.isolated(_canary, ctx.tier, ctx.seed, timeout=60)
         if r[0] in ("signal", "timeout", "exit"):
             what = {"signal": "process_killed_signal_%s" % (r[1:] or ("?",))[0], "timeout": "did_not_terminate",
                     "exit": "process_exit"}[r[0]]
@@ -991,7 +993,7 @@ def replay(case, ctx):
         finally:
             _timer(0)
     elif k == "graph_canary":
-        r = ctx.isolated(_canary, ctx.tier, ctx.seed, timeout=120)
+        r = ctx.isolated(_canary, ctx.tier, ctx.seed, timeout=60)
         if r[0] in ("signal", "timeout", "exit"):
             what = {"signal": "process_killed_signal_%s" % (r[1:] or ("?",))[0], "timeout": "did_not_terminate",
                     "exit": "process_exit"}[r[0]]
